@@ -455,8 +455,212 @@ theorem start_returns_the_loops_channel (env : Env) (cap : Nat) (s s' : State)
 /-- A `stop_streaming` call that returns `Ok` either found no loop running and changed
 nothing, or leaves: streaming disabled, TLParamsLocked = 0, not acquiring, one live loop less. -/
 theorem stop_ok_state (env : Env) (s s' : State) (h : step env .stop s = (.ok (), s')) :
-    s'.dev = if s.dev.loopFlag then stoppedDev s.dev else s.dev :=
+    s'.dev = if s.dev.loopFlag then stoppedDev env s.dev else s.dev :=
   (exact_stopStreaming env s.dev s rfl).1 () s' h
+
+/-! ## Growth round: the cache after close; nothing after a failed step -/
+
+/-- **stop_sequence_populates_cache**.  The writes of a successful stop sequence are cached
+(WriteThrough, the schema default): after `stop_streaming` on a running loop the context holds
+cached values for the TLParamsLocked and AcquisitionStop registers. -/
+theorem stop_sequence_populates_cache (env : Env) (s s' : State)
+    (h : step env .stop s = (.ok (), s')) (hf : s.dev.loopFlag = true) :
+    s'.dev.cache.lock = true ∧ s'.dev.cache.stop = true := by
+  have := stop_ok_state env s s' h
+  rw [hf] at this
+  simp only [if_true] at this
+  rw [this]
+  exact ⟨rfl, rfl⟩
+
+/-- **close_drops_cache_last**.  After EVERY `close` that returns `Ok`, from every state and
+under every fault plan — in particular a close while streaming, which runs the stop sequence
+whose `AcquisitionStop` / `TLParamsLocked := 0` writes populate the cache
+(`stop_sequence_populates_cache`) — the context's cache holds no value: clearing is the LAST
+thing `close` does, after those writes. -/
+theorem close_drops_cache_last (env : Env) (s s' : State)
+    (h : step env .close s = (.ok (), s')) :
+    s'.dev.cache = Cache.empty ∧
+      (s.dev.loopFlag = true → ∃ seg, s'.trace = s.trace ++ seg ∧
+        (⟨.acqStop, .ok⟩ : Effect) ∈ seg ∧ (⟨.lockSet 0, .ok⟩ : Effect) ∈ seg) := by
+  refine ⟨(cache_closeCam env s trivial).1 () s' h, fun hf => ?_⟩
+  obtain ⟨seg, ht, _, _, hok⟩ := close_order env s
+  rw [h] at ht hok
+  refine ⟨seg, ht, ?_, ?_⟩ <;>
+    · rw [hok rfl, hf]
+      simp [stopSeq]
+
+/-- **failed_step_performs_nothing_later** (whole trace).  In the trace of EVERY call sequence
+under EVERY fault plan: the effect that directly follows a FAILED effect is never a
+continuation step of the start/stop protocol (TLParamsLocked := 1, AcquisitionStart, loop
+start, AcquisitionStop, TLParamsLocked := 0, disable_streaming all require a successful
+predecessor) — the call was abandoned at the failing step. -/
+theorem failed_step_performs_nothing_later (env : Env) (ops : List Op)
+    (pre post : List Effect) (e e' : Effect)
+    (h : (runOps env ops State.init).trace = pre ++ e :: e' :: post) (he : e.out ≠ .ok) :
+    requiredBefore e'.sub = [] := by
+  have hord := global_protocol_order env ops (pre ++ [e]) e' post (by simp [h])
+  obtain ⟨p, hp⟩ := hord
+  by_cases hr : requiredBefore e'.sub = []
+  · exact hr
+  · obtain ⟨l, c, hl, hc⟩ := requiredBefore_last_ok _ hr
+    rw [hl] at hp
+    have := last_eq_of_append_eq hp
+    rw [this] at he
+    exact absurd hc he
+
+/-- The corollary for the `TLParamsLocked := 1` step: when that write fails, the next effect in
+the trace is not `AcquisitionStart` (nor a loop start): the device is never told to acquire
+after a failed lock. -/
+theorem no_acquisition_start_after_failed_lock (env : Env) (ops : List Op)
+    (pre post : List Effect) (o : Out) (e' : Effect)
+    (h : (runOps env ops State.init).trace = pre ++ ⟨.lockSet 1, o⟩ :: e' :: post) (ho : o ≠ .ok) :
+    e'.sub ≠ .acqStart ∧ e'.sub ≠ .loopStart := by
+  have := failed_step_performs_nothing_later env ops pre post ⟨.lockSet 1, o⟩ e' h ho
+  constructor <;> intro hs <;> rw [hs] at this <;> simp [requiredBefore] at this
+
+/-- The same per call, for every state: a `start_streaming` call whose `TLParamsLocked := 1`
+write fails performs neither `AcquisitionStart` nor a loop start. -/
+theorem lock_failure_ends_start (env : Env) (cap : Nat) (s : State) :
+    ∃ seg, (step env (.start cap) s).2.trace = s.trace ++ seg ∧
+      ∀ o, (⟨.lockSet 1, o⟩ : Effect) ∈ seg → o ≠ .ok →
+        ∀ o', (⟨.acqStart, o'⟩ : Effect) ∉ seg ∧ (⟨.loopStart, o'⟩ : Effect) ∉ seg := by
+  obtain ⟨seg, ht, hp, _, _⟩ := start_order env cap s
+  obtain ⟨seg', ht', _, hfs⟩ := fault_stops_call env (.start cap) s
+  have hseg : seg' = seg := List.append_cancel_left (ht'.symm.trans ht)
+  subst hseg
+  refine ⟨seg', ht, fun o hmem ho o' => ?_⟩
+  obtain ⟨pre, post, hsplit⟩ := List.append_of_mem hmem
+  obtain ⟨hpost, _, _⟩ := hfs pre _ post hsplit ho
+  subst hpost
+  -- the sub-operations of `seg'` are a prefix of the start protocol and end with `lockSet 1`
+  obtain ⟨t, ht2⟩ := hp
+  rw [hsplit] at ht2 ⊢
+  simp only [List.map_append, List.map_cons, List.map_nil, startSeq] at ht2
+  rcases pre with _ | ⟨a, _ | ⟨b, _ | ⟨c, _ | ⟨d, r⟩⟩⟩⟩ <;>
+    simp only [List.map_nil, List.map_cons, List.nil_append, List.cons_append, List.cons.injEq,
+      reduceCtorEq, false_and, and_false] at ht2
+  · -- pre = [a]: seg' = [a, lockSet 1]
+    obtain ⟨ha, _, _⟩ := ht2
+    constructor <;> intro hm <;>
+      simp only [List.nil_append, List.cons_append, List.mem_cons, List.mem_nil_iff, or_false,
+        Effect.mk.injEq, reduceCtorEq, false_and, or_false] at hm <;>
+      · rw [← hm] at ha; simp at ha
+  · -- four or more effects before the failing lock write: longer than the protocol
+    exact absurd ht2.2.2.2.2 (by simp)
+
+/-! ## Growth round: the `u3v::StreamHandle` instance of the stream handle
+
+All theorems above quantify over `env`, hence over `env.handle`: they hold for the model of the
+real `u3v::StreamHandle` (flag = `cancellation_tx.is_some()`, start refuses with InStreaming
+itself, stop takes the sender before sending, a send to a dead loop fails with the flag
+cleared) exactly as for the recording fake — in particular `flag_tracks_loop` for every
+history of CALLS.  What the calls cannot see is a loop thread that dies on its own; histories
+with that environment event (`Ev.loopDies`) are covered here. -/
+
+/-- **u3v_live_loop_is_reported**.  For the `u3v` handle, after EVERY history of camera calls
+interleaved with spontaneous loop deaths, under every fault plan: at most one loop thread is
+alive, and a live loop is always reported by `is_loop_running()`. -/
+theorem u3v_live_loop_is_reported (env : Env) (hh : env.handle = .u3v) (evs : List Ev) :
+    let s := runEvs env evs State.init
+    s.dev.loops ≤ 1 ∧ (s.dev.loops = 1 → s.dev.loopFlag = true) :=
+  u3v_runEvs env hh evs State.init ⟨by simp [State.init], by simp [State.init]⟩
+
+/-- **flag_tracks_loop_without_deaths** (either handle): in a history without a spontaneous loop
+death the flag is set iff exactly one loop is alive.  So for the `u3v` handle the clause "the
+streaming flag matches whether a loop is running" can fail only after the loop thread died by
+itself (which C12 `dead_only_by_panic` + C11 `build_total` exclude) — see the witness below. -/
+theorem flag_tracks_loop_without_deaths (env : Env) (evs : List Ev)
+    (hnd : ∀ ev ∈ evs, ev ≠ Ev.loopDies) :
+    let s := runEvs env evs State.init
+    (s.dev.loopFlag = true ↔ s.dev.loops = 1) ∧ s.dev.loops ≤ 1 := by
+  intro s
+  have h : LoopInv env.stopFailKills s := loopInv_runEvs env evs hnd State.init (loopInv_init _)
+  obtain ⟨h1, _⟩ := h
+  unfold FlagTracksLoop at h1
+  constructor
+  · cases hf : s.dev.loopFlag <;> simp [hf] at h1 <;> simp [h1]
+  · cases hf : s.dev.loopFlag <;> simp [hf] at h1 <;> simp [h1]
+
+/-- **u3v_stop_on_dead_loop**.  `u3v` handle holding a sender whose loop thread is gone (flag
+set, no live loop): `stop_streaming` attempts the loop stop, which fails; `Poisoned` is returned,
+the flag is cleared, and nothing else of the stop protocol is performed (AcquisitionStop,
+TLParamsLocked := 0 and disable_streaming are NOT issued: the device stays in acquisition). -/
+theorem u3v_stop_on_dead_loop (env : Env) (hh : env.handle = .u3v) (s : State)
+    (hf : s.dev.loopFlag = true) (hl : s.dev.loops = 0) :
+    (step env .stop s).1 = .err .streamPoisoned ∧
+      (step env .stop s).2.trace = s.trace ++ [⟨.loopStop, .fault⟩] ∧
+      (step env .stop s).2.dev.loopFlag = false ∧
+      (step env .stop s).2.dev.visible = s.dev.visible := by
+  have ho : outcome (stopEnv env s.dev) false s ≠ .ok := by
+    rw [outcome_stopEnv_u3v hh]; simp [hf, hl]
+  have hfault : outcome (stopEnv env s.dev) false s = .fault := by
+    rw [outcome_stopEnv_u3v hh]; simp [hf, hl]
+  have hstop : loopStopOp env s = (.err .streamPoisoned,
+      failSt .loopStop .fault (loopStopFail env) s) := by
+    unfold loopStopOp
+    rw [getDev_bind, subOp_fail ho, hfault]
+  have hcall : step env .stop s = (.err .streamPoisoned,
+      failSt .loopStop .fault (loopStopFail env) s) := by
+    simp only [step, call, stopStreaming]
+    rw [getDev_bind]
+    simp only [hf, Bool.not_true, Bool.false_eq_true, if_false]
+    exact bind_of_err hstop
+  rw [hcall]
+  refine ⟨rfl, rfl, ?_, ?_⟩
+  · simp [failSt, loopStopFail, hh]
+  · simp [failSt, loopStopFail_visible]
+
+/-- **in_streaming_iff_flag** (no_second_loop, both directions, every state, both handles).
+`start_streaming` returns the InStreaming refusal exactly when the streaming flag is set — and
+then it has no effect at all.  In particular the `u3v` handle's own "already streaming" check
+inside `start_streaming_loop` is never the one that fires under the camera (it would fire only
+after enable / TLParamsLocked / AcquisitionStart had been issued). -/
+theorem in_streaming_iff_flag (env : Env) (cap : Nat) (s : State) :
+    ((step env (.start cap) s).1 = .err .inStreaming ↔ s.dev.loopFlag = true) ∧
+      ((step env (.start cap) s).1 = .err .inStreaming → (step env (.start cap) s).2 = s) := by
+  have hfwd : (step env (.start cap) s).1 = .err .inStreaming → s.dev.loopFlag = true := by
+    intro h
+    cases hf : s.dev.loopFlag with
+    | true => rfl
+    | false =>
+      obtain ⟨_, h2⟩ := start_not_inStreaming env cap s hf
+      rcases hr : call env (.start cap) s with ⟨res, s'⟩
+      simp only [step, hr] at h
+      subst h
+      exact absurd rfl (h2 _ s' hr)
+  refine ⟨⟨hfwd, fun hf => by rw [no_second_loop_streaming env cap s hf]⟩, fun h => ?_⟩
+  rw [no_second_loop_streaming env cap s (hfwd h)]
+
+/-- **u3v_open_while_streaming_returns** (mirrors the repair of `StreamHandle::open`).  On the
+`u3v` handle with the flag set, the stream-handle part of `open` returns `Ok` whatever the fault
+plan says — it takes no lock and has no way to fail or block — and leaves the loop, the flag, the
+payload channel, the context, the cache and the device untouched (the only bookkeeping: the handle
+counts as opened, it is in use). -/
+theorem u3v_open_while_streaming_returns (env : Env) (hh : env.handle = .u3v) (s : State)
+    (hf : s.dev.loopFlag = true) :
+    strmOpenOp env s = (.ok (), okSt .strmOpen (fun d => { d with strmOpen := true }) s) := by
+  have ho : outcome (openEnv env s.dev) false s = .ok := by
+    simp [outcome, openEnv, hh, hf]
+  unfold strmOpenOp
+  rw [getDev_bind, subOp_ok ho]
+
+/-- hence `Camera::open` while streaming on the `u3v` handle fails only if the control handle's
+open fails: with the control-handle open succeeding, the call returns `Ok`. -/
+theorem u3v_camera_open_while_streaming (env : Env) (hh : env.handle = .u3v) (s : State)
+    (hf : s.dev.loopFlag = true) (hc : ∀ k, env.plan k = false) :
+    (step env .open s).1 = .ok () := by
+  have hco : ∀ s' : State, outcome env false s' = .ok := by
+    intro s'; simp [outcome, hc]
+  have hso : ∀ s' : State, s'.dev.loopFlag = true → strmOpenOp env s' =
+      (.ok (), okSt .strmOpen (fun d => { d with strmOpen := true }) s') :=
+    fun s' h => u3v_open_while_streaming_returns env hh s' h
+  have hctrl : ∀ s' : State, ctrlOpenOp env s' =
+      (.ok (), okSt .ctrlOpen (fun d => { d with ctrlOpen := true }) s') := by
+    intro s'; unfold ctrlOpenOp; rw [subOp_ok (hco s')]
+  simp only [step, call, openCam, handlePair]
+  split
+  · rw [bind_of_ok (hctrl s), hso _ (by simpa [okSt] using hf)]
+  · rw [bind_of_ok (hso s hf), hctrl]
 
 /-! ## Non-vacuity: concrete runs of the model (the hypotheses above are satisfiable and the
 conclusions are the expected concrete traces) -/
@@ -558,5 +762,58 @@ example : (runOps envOk [.open, .load, .gate 1, .start 1, .gate 2, .stop] State.
     [⟨.gateSet 1, .ok⟩, ⟨.enable, .ok⟩, ⟨.lockSet 1, .ok⟩, ⟨.acqStart, .ok⟩, ⟨.loopStart, .ok⟩,
      ⟨.gateSet 2, .ok⟩, ⟨.loopStop, .ok⟩, ⟨.acqStop, .ok⟩, ⟨.lockSet 0, .ok⟩, ⟨.disable, .ok⟩] := by
   decide
+
+-- growth round (a): close while streaming: the stop sequence's writes are cached, close drops them
+example : (runOps envOk [.open, .load, .start 1, .stop] State.init).dev.cache =
+    { lock := true, start := true, stop := true, gain := false, gate := false } := by decide
+
+example : (step envOk .close (runOps envOk [.open, .load, .start 1] State.init)).1 = .ok () ∧
+    (step envOk .close (runOps envOk [.open, .load, .start 1] State.init)).2.dev.cache = Cache.empty := by
+  decide
+
+-- growth round (a): TLParamsLocked := 1 fails (global index 4): no AcquisitionStart afterwards
+example : (runOps (envFault 4) [.open, .load, .start 1, .stop, .close] State.init).trace.drop 3 =
+    [⟨.enable, .ok⟩, ⟨.lockSet 1, .fault⟩, ⟨.ctrlClose, .ok⟩, ⟨.strmClose, .ok⟩] := by decide
+
+-- growth round (b): the u3v handle
+/-- `u3v::StreamHandle` model, no injected fault -/
+def envU3v : Env := { plan := fun _ => false, xml := Xml.full, stopFailKills := false, handle := .u3v }
+
+example : envU3v.handle = .u3v := rfl
+
+-- an ordinary session behaves like the fake's
+example : (runEvs envU3v [.call .open, .call .load, .call (.start 1), .call .close] State.init).trace =
+    (runOps envOk [.open, .load, .start 1, .close] State.init).trace := by decide
+
+-- WHERE flag_tracks_loop FAILS for the real handle: the loop thread dies by itself; the handle
+-- keeps reporting a running loop although none is alive ...
+example : (runEvs envU3v [.call .open, .call .load, .call (.start 1), .loopDies] State.init).dev.loopFlag = true ∧
+    (runEvs envU3v [.call .open, .call .load, .call (.start 1), .loopDies] State.init).dev.loops = 0 := by
+  decide
+
+-- ... a second start is refused as "already streaming" ...
+example : (stepEv envU3v (.call (.start 1))
+    (runEvs envU3v [.call .open, .call .load, .call (.start 1), .loopDies] State.init)).1 =
+    .err .inStreaming := by decide
+
+-- ... and stop returns Poisoned after the loop-stop attempt, clears the flag and leaves the device
+-- locked, enabled and acquiring (hypotheses of u3v_stop_on_dead_loop are satisfiable); a later
+-- close then finds no loop and closes the handles without the stop protocol
+example : (stepEv envU3v (.call .stop)
+    (runEvs envU3v [.call .open, .call .load, .call (.start 1), .loopDies] State.init)).1 =
+    .err .streamPoisoned := by decide
+
+example : (runEvs envU3v [.call .open, .call .load, .call (.start 1), .loopDies, .call .stop, .call .close]
+    State.init).dev.visible =
+    { ctrlOpen := false, strmOpen := false, enabled := true, lock := 1, acquiring := true } := by decide
+
+-- the repaired open: `open load start1 load open` on the u3v handle returns Ok for the last open
+-- even when the fault plan asks the stream-handle open to fail (index 9 = that sub-operation)
+example : runResults { envU3v with plan := fun i => i == 9 } [.open, .load, .start 1, .load, .open]
+    State.init = [.ok (), .ok (), .ok (), .ok (), .ok ()] := by decide
+
+-- (on the recording fake the same plan makes it fail: the fast path is the u3v handle's)
+example : (runResults { envOk with plan := fun i => i == 9 } [.open, .load, .start 1, .load, .open]
+    State.init).getLast? = some (.err .streamIo) := by decide
 
 end CamVerif.C16
